@@ -96,6 +96,7 @@ class Derive(Stream):
 class DeriveOut(Derive):
     name = "derive-out"
     spec_check = None
+    model_out = "c05_model_expected"
 
     def generate(self, rng, tier):
         cs = []
